@@ -234,7 +234,7 @@ class World12:
         if k in ("stage", "template"):
             return step["name"] in a.sub or step["name"] in a.templates
         if k == "clone":
-            return step["template"] not in a.templates or step["name"] in a.sub
+            return (step["template"] not in a.templates and step["template"] not in a.sub) or step["name"] in a.sub
         node = a.node(step.get("stage"))  # KeyError -> skipped
         names = set()
         if "expr" in step:
@@ -613,9 +613,15 @@ def gen_run(r, w, steps, emit, restarts=False):
 
 def clone_op(r, names, n, act=None):
     d = {"op": "clone", "name": "c%d" % n, "template": G.pick(r, names["tpl"])}
+    if names["stage"] and r.random() < 0.15:
+        d["template"] = G.pick(r, names["stage"])  # a copy of a stage that already belongs to the OCP (possibly itself a clone)
     guessed = set()
-    if act is not None and d["template"] in act.templates:
-        guessed = set(x for x, g in act.templates[d["template"]].spec.initial)
+    if act is not None:
+        try:
+            src = act.templates[d["template"]] if d["template"] in act.templates else act.sub[d["template"]]
+            guessed = set(x for x, g in src.spec.initial)
+        except KeyError:
+            pass
     if r.random() < 0.5:
         # a fixed horizon together with an inherited guess for it would be ill-posed
         # (0 is a legal override and differs from "not given")
